@@ -260,10 +260,14 @@ def check_tree_memo(run, program, method, slot, cls_name, rule_prefix="F-CACHE")
         P |= _param_uses(k.value, set(params))
     compared = set()
     forcing = set()
+    from ..astutil import LocalDefs
+    ldefs = LocalDefs(f.node)
     for n in ast.walk(f.node):
         if isinstance(n, ast.Compare):
             involved = _param_uses(n, set(params))
-            mentions_slot = any(isinstance(x, ast.Attribute) and x.attr == slot for x in ast.walk(n))
+            # the comparison reads the cached object: directly (self._slot.x) or through a local bound to it
+            behind, _names = ldefs.closure(n)
+            mentions_slot = any(isinstance(x, ast.Attribute) and x.attr == slot for e in behind for x in ast.walk(e))
             if mentions_slot:
                 compared |= involved
         if isinstance(n, ast.If):
